@@ -391,3 +391,156 @@ Qed.
 Lemma be_chtimes_plain fs p o t : plain fs p o ->
   be_chtimes fs p t = (fs_upd fs p (fun o => set_meta o (o_perm o) (o_uid o) (o_gid o) t), Ok tt).
 Proof. intros [A _]. unfold be_chtimes, be_meta. rewrite A. reflexivity. Qed.
+
+(* ====================================================================================================== *)
+(* 5. creating a new entry                                                                                *)
+(* ====================================================================================================== *)
+(* a missing last component is missing whether or not a final symlink would be followed *)
+Lemma walk_missing_follow fuel : forall links fs canon todo q,
+  walk fuel links fs canon todo false = WMissing q -> walk fuel links fs canon todo true = WMissing q.
+Proof.
+  induction fuel as [|fuel IH]; intros links fs canon todo q; cbn [walk]; [discriminate|].
+  destruct (fs_get fs canon) as [cur|]; [|discriminate].
+  destruct todo as [|c rest]; [discriminate|].
+  destruct (negb (kind_eqb (o_kind cur) KDir)); [discriminate|].
+  destruct (is_dotdot c); [apply IH|].
+  destruct (fs_get fs (canon ++ [c])) as [ch|]; [|destruct rest; auto].
+  destruct rest as [|c2 rest].
+  - cbn [negb orb]. rewrite andb_false_r. discriminate.
+  - cbn [negb orb]. rewrite !andb_true_r. destruct (kind_eqb (o_kind ch) KLink); [destruct links; [discriminate|apply IH]|apply IH].
+Qed.
+Lemma resolve_missing_follow fs p q : resolve fs p false = WMissing q -> resolve fs p true = WMissing q.
+Proof. apply walk_missing_follow. Qed.
+
+(* fs' is fs plus a new non-symlink object at p, other objects keeping kind and target *)
+Definition shape_eq (a b : option obj) : Prop :=
+  match a, b with
+  | Some x, Some y => o_kind y = o_kind x /\ o_target y = o_target x
+  | None, None => True
+  | _, _ => False
+  end.
+Definition adds (fs fs' : fsmap) (p : path) (newo : obj) : Prop :=
+  fs_get fs p = None /\ fs_get fs' p = Some newo /\ o_kind newo = KFile /\
+  forall q, q <> p -> shape_eq (fs_get fs q) (fs_get fs' q).
+
+Lemma walk_add fs fs' p newo (A : adds fs fs' p newo) fuel : forall links canon todo fl,
+  match walk fuel links fs canon todo fl with
+  | WFound q o => exists o', walk fuel links fs' canon todo fl = WFound q o' /\ fs_get fs' q = Some o'
+  | WMissing q => walk fuel links fs' canon todo fl = if path_eqb q p then WFound p newo else WMissing q
+  | WErr _ => True
+  end.
+Proof.
+  destruct A as (A1 & A2 & A3 & A4).
+  induction fuel as [|fuel IH]; intros links canon todo fl; cbn [walk]; [exact I|].
+  destruct (fs_get fs canon) as [cur|] eqn:E; [|exact I].
+  assert (Nc : canon <> p) by (intros ->; congruence).
+  pose proof (A4 canon Nc) as S. rewrite E in S. destruct (fs_get fs' canon) as [cur'|] eqn:E'; [|destruct S].
+  destruct S as [S1 S2].
+  destruct todo as [|c rest]; [exists cur'; auto|].
+  rewrite S1. destruct (negb (kind_eqb (o_kind cur) KDir)); [exact I|].
+  destruct (is_dotdot c); [apply IH|].
+  destruct (fs_get fs (canon ++ [c])) as [ch|] eqn:F.
+  - assert (Nd : canon ++ [c] <> p) by (intros X; rewrite X in F; congruence).
+    pose proof (A4 _ Nd) as T. rewrite F in T. destruct (fs_get fs' (canon ++ [c])) as [ch'|] eqn:F'; [|destruct T].
+    destruct T as [T1 T2]. rewrite T1, T2.
+    destruct (kind_eqb (o_kind ch) KLink && (negb match rest with [] => true | _ => false end || fl)).
+    + destruct links; [exact I|apply IH].
+    + destruct rest; [exists ch'; auto|apply IH].
+  - destruct rest; [|exact I].
+    destruct (path_eqb (canon ++ [c]) p) eqn:G.
+    + apply path_eqb_eq in G. rewrite G, A2, A3. reflexivity.
+    + apply path_eqb_neq in G. pose proof (A4 _ G) as T. rewrite F in T.
+      destruct (fs_get fs' (canon ++ [c])); [destruct T|reflexivity].
+Qed.
+
+Lemma app_one_neq {A} (d : list A) n : d ++ [n] <> d.
+Proof. intros H. apply (f_equal (@length A)) in H. rewrite app_length in H. cbn in H. lia. Qed.
+Lemma parent_app d n : parent (d ++ [n]) = d.
+Proof. unfold parent. apply removelast_last. Qed.
+
+(* the tree right after Create of an absent name *)
+Definition created_fs (fs : fsmap) (d : path) (n : name) (t : N) : fsmap :=
+  touch (fs_set fs (d ++ [n]) (mk_file 438 t)) d t.
+Definition touch_f (t : N) (o : obj) : obj := set_meta o (o_perm o) (o_uid o) (o_gid o) t.
+
+Lemma created_fs_get fs d n t q : fs_get fs (d ++ [n]) = None ->
+  fs_get (created_fs fs d n t) q =
+  if path_eqb q (d ++ [n]) then Some (mk_file 438 t)
+  else match fs_get fs q with Some o => Some (if path_eqb q d then touch_f t o else o) | None => None end.
+Proof.
+  intros H. unfold created_fs. rewrite fs_get_touch, fs_get_set.
+  destruct (path_eqb q (d ++ [n])) eqn:E; [|reflexivity].
+  apply path_eqb_eq in E. subst q.
+  replace (path_eqb (d ++ [n]) d) with false; [reflexivity|]. symmetry. apply path_eqb_neq, app_one_neq.
+Qed.
+Lemma created_adds fs d n t : fs_get fs (d ++ [n]) = None -> adds fs (created_fs fs d n t) (d ++ [n]) (mk_file 438 t).
+Proof.
+  intros H. split; [exact H|]. split; [rewrite created_fs_get by exact H; rewrite path_eqb_refl; reflexivity|].
+  split; [reflexivity|]. intros q Hq. rewrite created_fs_get by exact H.
+  apply path_eqb_neq in Hq. rewrite Hq. unfold shape_eq. destruct (fs_get fs q) as [o|]; [|exact I].
+  destruct (path_eqb q d); split; reflexivity.
+Qed.
+Lemma created_fuel fs d n t : fs_get fs (d ++ [n]) = None ->
+  max_target_comps (created_fs fs d n t) = max_target_comps fs.
+Proof.
+  intros H. unfold created_fs, touch. rewrite max_target_comps_upd by (intros o; split; reflexivity).
+  unfold fs_set. rewrite (fs_del_absent _ _ H). reflexivity.
+Qed.
+
+Lemma walk_missing_get fuel : forall links fs canon todo fl q,
+  walk fuel links fs canon todo fl = WMissing q -> fs_get fs q = None.
+Proof.
+  induction fuel as [|fuel IH]; intros links fs canon todo fl q; cbn [walk]; [discriminate|].
+  destruct (fs_get fs canon) as [cur|]; [|discriminate].
+  destruct todo as [|c rest]; [discriminate|].
+  destruct (negb (kind_eqb (o_kind cur) KDir)); [discriminate|].
+  destruct (is_dotdot c); [apply IH|].
+  destruct (fs_get fs (canon ++ [c])) as [ch|] eqn:F.
+  - destruct (kind_eqb (o_kind ch) KLink && (negb match rest with [] => true | _ => false end || fl)).
+    + destruct links; [discriminate|apply IH].
+    + destruct rest; [discriminate|apply IH].
+  - destruct rest; [|discriminate]. intros [= <-]. exact F.
+Qed.
+Lemma missing_get fs p fl q : resolve fs p fl = WMissing q -> fs_get fs q = None.
+Proof. apply walk_missing_get. Qed.
+
+(* Create of an absent name: the new empty file appears, the parent is touched, every resolution that
+   succeeded before still succeeds at the same place *)
+Definition absent (fs : fsmap) (d : path) (n : name) : Prop := resolve fs (d ++ [n]) false = WMissing (d ++ [n]).
+
+Lemma be_create_absent fs d n t : absent fs d n ->
+  be_create fs (d ++ [n]) t = (created_fs fs d n t, Ok (d ++ [n])).
+Proof.
+  intros H. unfold be_create. rewrite (resolve_missing_follow _ _ _ H), parent_app. reflexivity.
+Qed.
+Lemma created_plain_new fs d n t : absent fs d n -> plain (created_fs fs d n t) (d ++ [n]) (mk_file 438 t).
+Proof.
+  intros H. pose proof (missing_get _ _ _ _ H) as G. pose proof (created_adds fs d n t G) as A.
+  assert (X : forall fl, resolve (created_fs fs d n t) (d ++ [n]) fl = WFound (d ++ [n]) (mk_file 438 t)).
+  { intros fl. unfold resolve, walk_fuel. rewrite created_fuel by exact G.
+    pose proof (walk_add _ _ _ _ A (S (length (d ++ [n]) + 41 * S (max_target_comps fs))) 40%nat [] (d ++ [n]) fl) as W.
+    assert (R : resolve fs (d ++ [n]) fl = WMissing (d ++ [n])) by (destruct fl; [apply resolve_missing_follow|]; exact H).
+    unfold resolve, walk_fuel in R. rewrite R, path_eqb_refl in W. exact W. }
+  split; apply X.
+Qed.
+Lemma created_plain_old fs d n t q o : absent fs d n -> plain fs q o ->
+  plain (created_fs fs d n t) q (if path_eqb q d then touch_f t o else o).
+Proof.
+  intros H [P1 P2]. pose proof (missing_get _ _ _ _ H) as G. pose proof (created_adds fs d n t G) as A.
+  assert (Nq : path_eqb q (d ++ [n]) = false).
+  { apply path_eqb_neq. intros ->. apply resolve_found in P1. congruence. }
+  assert (X : forall fl, resolve fs q fl = WFound q o ->
+              resolve (created_fs fs d n t) q fl = WFound q (if path_eqb q d then touch_f t o else o)).
+  { intros fl R. pose proof (resolve_found _ _ _ _ _ R) as Gq. unfold resolve, walk_fuel in *. rewrite created_fuel by exact G.
+    pose proof (walk_add _ _ _ _ A (S (length q + 41 * S (max_target_comps fs))) 40%nat [] q fl) as W.
+    rewrite R in W. destruct W as (o' & W1 & W2). rewrite W1. f_equal.
+    rewrite created_fs_get, Nq, Gq in W2 by exact G. congruence. }
+  split; apply X; assumption.
+Qed.
+
+Lemma be_chmod_plain fs p o m : plain fs p o ->
+  be_chmod fs p m = (fs_upd fs p (fun o => set_meta o (N.land m 511) (o_uid o) (o_gid o) (o_mtime o)), Ok tt).
+Proof. intros [A _]. unfold be_chmod, be_meta. rewrite A. reflexivity. Qed.
+Lemma be_chown_plain fs p o u g : plain fs p o ->
+  be_chown fs p u g = (fs_upd fs p (fun o => set_meta o (o_perm o) u g (o_mtime o)), Ok tt).
+Proof. intros [A _]. unfold be_chown, be_meta. rewrite A. reflexivity. Qed.
